@@ -179,7 +179,19 @@ def r2_filtered_choice(repo):
                   "the variable is chosen from [v for v in variables if fun(v, etype)]"))
     f = _m(repo, "_gen_func_call_ref")
     apps = [c for c in calls_in(f.node) if call_name(c) == "append" and src(c.func.value) == "refs"]
-    ok = len(apps) == 1 and any(pol and "ret_type.is_assignable(etype)" in s and "ret_type == etype" in s for s, pol in _g(apps[0]))
+
+    def _prefiltered(a):
+        # elements of a list that a matching routine already filtered by etype
+        for lp in [x for x in ancestors(a) if isinstance(x, ast.For)]:
+            if isinstance(lp.iter, ast.Name):
+                d = cfg_of(f.node).defs_reaching(lp.iter.id, lp)
+                if d and all(isinstance(x[1], ast.Call) and call_name(x[1]).startswith("_get_matching_") and
+                             x[1].args and src(x[1].args[0]) == "etype" for x in d):
+                    return True
+        return False
+    direct = [a for a in apps if not _prefiltered(a)]
+    ok = len(direct) == 1 and any(pol and "ret_type.is_assignable(etype)" in s and "ret_type == etype" in s
+                                  for s, pol in _g(direct[0]))
     obs.append(Ob("C01-R2", "_gen_func_call_ref:references-filtered-by-return-type", _w(f), ok,
                   "a function-typed variable is a candidate only if its return type is assignable to / equals etype"))
     f = _m(repo, "_get_subclass")
